@@ -154,7 +154,7 @@ impl RK23 {
         f.ode(x, &y, &mut k1);
         evals.ode += 1;
         let mut h = match self.first_step {
-            Some(h0) => h0.abs() * posneg,
+            Some(h0) => h0.abs().min(hmax) * posneg,
             None => {
                 evals.ode += 1;
                 hinit(
